@@ -161,6 +161,10 @@ class Eval(object):
                 ew = self.in_mem.get(base)
                 if ew is None:
                     raise Unsupported('read through %s without element width' % base)
+                if ew == 1:
+                    # array of C++ bool: every byte holds 0 or 1 (any other object representation is UB)
+                    out.append(T.cat(T.atom_bv(base[4:], o, 1), T.const(7, 0)))
+                    continue
                 bit = o * 8
                 e, r = bit // ew, bit % ew
                 out.append(T.slice_(T.atom_bv(base[4:], e, ew), r, 8))
@@ -412,7 +416,15 @@ class Eval(object):
             E[iid] = lanewise(lambda x: f(x, ew), ops[0])
         elif op in ('sitofp', 'uitofp', 'fptosi', 'fptoui', 'fpext', 'fptrunc'):
             ew = ty.elem.bits if ty.kind == 'vec' else ty.bits
-            E[iid] = lanewise(lambda x: T.raw_op(op, ew, x, attrs=T.width(x)), ops[0])
+
+            def conv(x):
+                if op in ('sitofp', 'uitofp') and len(x) == 2 and T.pw(x[0]) == 1 and x[1][0] == 'c' and x[1][2] == 0 \
+                        and T.width(x) > 1 and ew in (32, 64):
+                    # int -> fp of a value that is 0 or 1: exactly 0.0 or 1.0
+                    one = 0x3f800000 if ew == 32 else 0x3ff0000000000000
+                    return T.sel((x[0],), T.const(ew, one), T.const(ew, 0))
+                return T.raw_op(op, ew, x, attrs=T.width(x))
+            E[iid] = lanewise(conv, ops[0])
         elif op == 'shufflevector':
             a, b = self.val(ops[0]), self.val(ops[1])
             st = self.oty(ops[0])
@@ -520,7 +532,13 @@ class Eval(object):
             self.call(inst, ty, ops, lanes_of, lanewise)
         elif op == 'freeze':
             E[iid] = self.val(ops[0])
-        elif op in ('ptrtoint', 'inttoptr'):
+        elif op == 'ptrtoint':
+            p = self.val(ops[0])
+            if not isinstance(p, Ptr) or p.var or not p.base.startswith('arg:'):
+                raise Unsupported('ptrtoint of %r' % (p,))
+            # the numeric address of a pointer argument: an opaque 64-bit input plus the constant offset
+            E[iid] = T.slice_(T.add(T.atom_bv('addr_' + p.base[4:], 0, 64), T.const(64, p.off)), 0, ty.bits)
+        elif op == 'inttoptr':
             raise Unsupported(op)
         else:
             raise Unsupported('opcode %s' % op)
@@ -667,6 +685,58 @@ class Eval(object):
                     raise Unsupported('masked load with symbolic mask')
                 out.append(self.load(Ptr(p.base, p.off + i * ew // 8, p.var), ew // 8, {'align': 1}))
             E[iid] = T.cat(*out)
+        elif name in ('llvm.x86.sse3.ldu.dq', 'llvm.x86.avx.ldu.dq.256'):
+            p = self.val(ops[0])
+            E[iid] = self.load(p, ty.bits // 8, {'align': 1})       # LDDQU: unaligned load of the whole register
+        elif re.match(r'^llvm\.x86\.avx2\.gather\.(d|q)\.(d|q|ps|pd)(\.256)?$', name):
+            # (src, base, index, mask vector (sign bit), scale)
+            src, p, idx, mk, sc = self.val(ops[0]), self.val(ops[1]), self.val(ops[2]), self.val(ops[3]), T.const_val(self.val(ops[4]))
+            it = self.oty(ops[2])
+            ew = ty.elem.bits
+            iw = it.elem.bits
+            out = []
+            for i in range(ty.n):
+                mb = T.slice_(mk, (i + 1) * ew - 1, 1)
+                if not T.is_const(mb):
+                    raise Unsupported('gather with symbolic mask')
+                if T.const_val(mb) == 0 or i >= it.n:
+                    out.append(T.slice_(src, i * ew, ew) if T.const_val(mb) == 0 else T.const(ew, 0))
+                    continue
+                ix = T.sext(T.slice_(idx, i * iw, iw), 64)
+                self.var_access.append(('load', Ptr(p.base, p.off, list(p.var) + [(ix, sc)]), ew // 8, None, inst))
+                out.append(T.raw_op('memload', ew, ix, attrs=(p.base, p.off, (sc,))))
+            E[iid] = T.cat(*out)
+        elif re.match(r'^llvm\.x86\.avx512\.mask\.gather\.', name) or re.match(r'^llvm\.x86\.avx512\.mask\.gather3', name):
+            # (src, base, index, mask<n x i1>, scale): lane = mask ? mem[base + sext(index lane)*scale] : src lane
+            src, p, idx, mk, sc = self.val(ops[0]), self.val(ops[1]), self.val(ops[2]), self.val(ops[3]), T.const_val(self.val(ops[4]))
+            it = self.oty(ops[2])
+            ew = ty.elem.bits
+            out = []
+            for i in range(ty.n):
+                mb = T.slice_(mk, i, 1)
+                if not T.is_const(mb):
+                    raise Unsupported('gather with symbolic mask')
+                if T.const_val(mb) == 0:
+                    out.append(T.slice_(src, i * ew, ew))
+                    continue
+                ix = T.sext(T.slice_(idx, i * it.elem.bits, it.elem.bits), 64)
+                q = Ptr(p.base, p.off, list(p.var) + [(ix, sc)])
+                self.var_access.append(('load', q, ew // 8, None, inst))
+                out.append(T.raw_op('memload', ew, ix, attrs=(p.base, p.off, (sc,))))
+            E[iid] = T.cat(*out)
+        elif re.match(r'^llvm\.x86\.avx512\.mask\.scatter', name):
+            # (base, mask<n x i1>, index, value, scale)
+            p, mk, idx, v, sc = self.val(ops[0]), self.val(ops[1]), self.val(ops[2]), self.val(ops[3]), T.const_val(self.val(ops[4]))
+            it, vt = self.oty(ops[2]), self.oty(ops[3])
+            ew = vt.elem.bits
+            for i in range(vt.n):
+                mb = T.slice_(mk, i, 1)
+                if not T.is_const(mb):
+                    raise Unsupported('scatter with symbolic mask')
+                if T.const_val(mb) == 0:
+                    continue
+                ix = T.sext(T.slice_(idx, i * it.elem.bits, it.elem.bits), 64)
+                self.var_access.append(('store', Ptr(p.base, p.off, list(p.var) + [(ix, sc)]), ew // 8, T.slice_(v, i * ew, ew), inst))
         elif self.const_permute(inst, name, ops, ty):
             pass
         elif re.match(r'^llvm\.x86\.avx512\.mask\.(compress|expand)\.', name):
